@@ -77,15 +77,18 @@ def one(rev, queued, during, ctx):
         store.as_foreman()
         dawgie.db.add('A')
         ran = []
+        polls = []
 
         def hook(task, alg, kind, handle):
             ds = handle if kind == 'task' else handle.ds() if hasattr(handle, 'ds') else handle
             ran.append((f'{task}.{alg.name()}', getattr(ds, '_tn', lambda: None)(),
                         getattr(ds, '_runid', lambda: None)()))
+            polls.append(('before', bool(alg.abort())))
             if during == 'goes-inactive':
                 w.fsm.active = False
             elif during == 'new-revision':
                 dawgie.context.git_rev = 'r2'
+            polls.append(('after', bool(alg.abort())))
             for sv in alg.state_vectors():
                 for vn in list(sv.keys()):
                     sv[vn] = type(sv[vn])(('const', task, sv.name(), vn))
@@ -187,6 +190,12 @@ def one(rev, queued, during, ctx):
         jobid, tgt, runid, _fac = sent[0]
         if ran[0][0] != jobid or (ran[0][1] not in (tgt, None) and tgt != '__all__'):
             ctx.violation('C11/worker/executed-another-unit', f'[{label}] message {sent[0]}, executed {ran[0]}', rep)
+        # the running unit asks (Algorithm.abort -> worker.Context.abort -> status
+        # poll): the answer is the farm's answer at that moment
+        want = [('before', False), ('after', during != 'nothing')]
+        if polls[:2] != want:
+            ctx.violation('C11/worker/status-poll-answer-not-current',
+                          f'[{label}] abort() answered {polls[:2]} around "{during}", the farm would say {want}', rep)
         if ran[0][2] is not None and ran[0][2] != runid:
             ctx.violation('C11/worker/executed-under-another-run-id',
                           f'[{label}] message carries run id {runid}, the unit ran under {ran[0][2]}', rep)
